@@ -637,6 +637,42 @@ def _separators(ctx, mir) -> None:
     ctx.count("separator_tests", n)
 
 
+def _offset_starters(ctx, mir) -> None:
+    """a time of day is over where the offset begins, and an offset begins with 'Z', '+' or '-': wherever the compiled parser decides
+    "is there more of the time?" by testing the current character against one of them (a chain of `!=` tests sharing their exit),
+    the chain must name all three - otherwise a time given to that precision followed by the missing kind of offset is rejected"""
+    rel = "rust/src/parsing.rs"
+    n = 0
+    for name, g in sorted(mir.fns.items()):
+        if "parsing" not in name or "python" in name:
+            continue
+        short = name.rsplit("::", 1)[-1]
+        sites = {}
+        for b, s_ in g.all_stmts():
+            if s_.op == "Ne" and len(s_.args) == 2 and re.fullmatch(r"const '.'", s_.args[1]) and b.switch and b.switch[0] == s_.dest:
+                sites[b.idx] = (s_.args[1][7], set(b.succs))
+        done = set()
+        for bi in sorted(sites):
+            if bi in done:
+                continue
+            chain, cur = [bi], bi
+            while True:
+                nxt = [j for j in sites[cur][1] if j in sites and j not in chain and (sites[j][1] & sites[cur][1])]
+                if not nxt:
+                    break
+                cur = nxt[0]
+                chain.append(cur)
+            done.update(chain)
+            chars = {sites[j][0] for j in chain}
+            if len(chain) >= 2 and chars & {"Z", "+", "-"}:
+                n += 1
+                missing = {"Z", "+", "-"} - chars
+                ctx.ob("OFFSET.starters", f"rs:{short}/chain@{n}", not missing,
+                       f"the end-of-time test names {sorted(chars)}" + (f" but not {sorted(missing)}: e.g. `10:20{sorted(missing)[0]}05:00` is rejected "
+                       f"(or read as more time) at this precision" if missing else ""), rel)
+    ctx.count("offset_starter_chains", n)
+
+
 def run(ctx) -> None:
     ctx.explanation = EXPLANATION
     ctx.step(_table_is_cumulative, ctx)
@@ -653,6 +689,7 @@ def run(ctx) -> None:
         _rs_forward(ctx, mir, sf)
         _rs_backward(ctx, mir)
         _separators(ctx, mir)
+        ctx.step(_offset_starters, ctx, mir)
         ctx.expect_min("SEPARATOR.pair", 10)
     ctx.step(_week, ctx, mir, sf)
     ctx.step(_fraction, ctx, mir)
